@@ -214,7 +214,7 @@ HNext ==
                                /\ mroot' = IF s = 0 THEN r.a ELSE mroot
                                /\ sroots' = IF s = 0 THEN sroots ELSE [sroots EXCEPT ![s] = r.a]
                             /\ UNCHANGED db
-  \/ \E s \in 1..MaxSnaps : /\ Can /\ Reload(s)          \* NewMutable(db, root hash of the flushed snapshot)
+  \/ \E s \in 1..MaxSnaps : /\ Can /\ Reload(s, 1)          \* NewMutable(db, root hash of the flushed snapshot)
                             /\ IF snaps[s].trie = Nil THEN heap' = heap /\ mroot' = 0
                                ELSE LET r == Alloc(heap, HRef(snaps[s].trie)) IN heap' = r.h /\ mroot' = r.a
                             /\ UNCHANGED <<sroots, db>>
